@@ -819,6 +819,25 @@ async def run_calls(job, p):
 
 
 # ----------------------------------------------------------------------------------------------- round trips
+_MODEL_INDEX = {}
+
+
+def resolve_model(pkg, schema_name):
+    """Find the generated class/alias for a spec schema name: alphanumeric-only case-folded match of the exported name."""
+    idx = _MODEL_INDEX.get(pkg)
+    if idx is None:
+        idx = {}
+        mods = importlib.import_module(f"{pkg}.models")
+        for n in dir(mods):
+            if not n.startswith("_"):
+                idx.setdefault(norm_name(n), []).append(getattr(mods, n))
+        _MODEL_INDEX[pkg] = idx
+    cands = [c for c in idx.get(norm_name(schema_name), []) if not inspect.ismodule(c)]
+    if not cands:
+        raise LookupError(f"no exported model matches schema name {schema_name!r}")
+    return cands[0]
+
+
 def roundtrips(job, p):
     """job['roundtrips'] = [{"id":.., "model": "Pet" | {"alias": "Pets"}, "module": "pet", "json": ...}]"""
     pkg = p["pkg"]
@@ -832,8 +851,11 @@ def roundtrips(job, p):
     for c in job.get("roundtrips", []):
         n += 1
         try:
-            mod = importlib.import_module(f"{pkg}.models.{c['module']}")
-            cls = getattr(mod, c["model"])
+            if c.get("module"):
+                mod = importlib.import_module(f"{pkg}.models.{c['module']}")
+                cls = getattr(mod, c["model"])
+            else:
+                cls = resolve_model(pkg, c["model"])
         except BaseException as e:  # noqa
             out["results"][c["id"]] = {"stage": "import", "exc": exc_info(e)}
             continue
